@@ -8,7 +8,17 @@
   condition is obtained from the resumption theorem applied to the preceding call (which started from a new object).
 -/
 import Sipsp.Properties.C17
+import Sipsp.Properties.C02
+import Sipsp.Proofs.AuditFixB
+import Sipsp.Properties.C03
+import Sipsp.Properties.C04
+import Sipsp.Properties.C05
+import Sipsp.Properties.C06
+import Sipsp.Properties.C10
+import Sipsp.Properties.C11
 import Sipsp.Properties.C14
+import Sipsp.Properties.C15
+import Sipsp.Properties.C18
 import Sipsp.Properties.C20
 
 namespace Sipsp
@@ -61,6 +71,666 @@ theorem ae_hdrs_reset_fresh {l : URIHdrsLst} (h : hlClean l) : l.reset.Fresh := 
   split
   · rfl
   · exact h.1 i (by omega) hk
+
+/-! ## C02: resumption theorems applied to genuinely suspended objects
+
+  Pattern: the input `B` is cut twice, `B = b1 ++ s1 ++ s2`. Call 1 runs on `b1` from a new object and is suspended
+  (`R1`); call 2 runs on `b1 ++ s1` from the suspended object and is suspended again (`R2`). The theorem is applied
+  first to call 1 (new object: legitimacy by the `*_new` lemma) — which yields the legitimacy of the suspended object
+  `R1` on `b1 ++ s1` — and then to call 2, whose object is `R1`, the one the model returned. -/
+
+/-! ### `C02.resume_contacts` -/
+
+def aeCtB : Buf := "<sip:a@b>, <sip:c@d>;q=1\r\nX".toUTF8.data
+def aeCt1 : Buf := aeCtB.extract 0 5
+def aeCtS1 : Buf := aeCtB.extract 5 15
+def aeCtS2 : Buf := aeCtB.extract 15 aeCtB.size
+/-- a new contacts object over a cleared array of capacity 2 -/
+def aeCtNew : PContacts := { vals := Array.replicate 2 {} }
+/-- call 1: `<sip:` from the new object -/
+def aeCtR1 : Nat × Err × PContacts := parseAllContactValues aeCt1 0 aeCtNew
+/-- call 2, resumed with what call 1 returned: `<sip:a@b>, <sip` -/
+def aeCtR2 : Nat × Err × PContacts := parseAllContactValues (aeCt1 ++ aeCtS1) aeCtR1.1 aeCtR1.2.2
+
+-- test: both calls are suspended; after call 2 one value is stored and the second one is under way; the cuts are
+-- proper; the one-shot call on the whole input is definitive (OK, two values)
+example : aeCtR1.2.1 = .moreBytes ∧ aeCtR2.2.1 = .moreBytes ∧ aeCtR2.2.2.n = 1 ∧ aeCtR1.1 = 5 ∧ aeCtR2.1 = 15 ∧
+    aeCt1 ++ aeCtS1 ++ aeCtS2 = aeCtB ∧ aeCtS1.size = 10 ∧ aeCtS2.size = 12 ∧
+    (parseAllContactValues aeCtB 0 aeCtNew).2.1 = .ok ∧ (parseAllContactValues aeCtB 0 aeCtNew).2.2.n = 2 := by
+  decide +kernel
+
+-- `C02.resume_contacts` with ALL hypotheses instantiated on the suspended object `aeCtR1` (returned by call 1)
+example :
+    RR PContacts.obs (parseAllContactValues (aeCt1 ++ aeCtS1 ++ aeCtS2) aeCtR2.1 aeCtR2.2.2)
+      (parseAllContactValues (aeCt1 ++ aeCtS1 ++ aeCtS2) aeCtR1.1 aeCtR1.2.2) ∧
+    ctOK (aeCt1 ++ aeCtS1 ++ aeCtS2) aeCtR2.1 aeCtR2.2.2 ∧ aeCtR2.2.2.cur.state ≠ .fin ∧
+    aeCtR1.1 ≤ aeCtR2.1 ∧ aeCtR2.1 ≤ (aeCt1 ++ aeCtS1).size := by
+  have h1 := C02.resume_contacts aeCt1 aeCtS1 0 aeCtNew (afb_ctOK_new _ _ (Nat.zero_le _) 2) (Nat.zero_le _)
+    (ae_eta3 aeCtR1 (by decide +kernel))
+  exact C02.resume_contacts (aeCt1 ++ aeCtS1) aeCtS2 aeCtR1.1 aeCtR1.2.2 h1.2.1
+    (by have := h1.2.2.2.2; rw [Array.size_append]; omega) (ae_eta3 aeCtR2 (by decide +kernel))
+
+/-! ### `C02.resume_pais` -/
+
+def aePaB : Buf := "<sip:a@b>, \"x\" <sip:c@d>\r\nX".toUTF8.data
+def aePa1 : Buf := aePaB.extract 0 5
+def aePaS1 : Buf := aePaB.extract 5 15
+def aePaS2 : Buf := aePaB.extract 15 aePaB.size
+def aePaR1 : Nat × Err × PPAIs := parseAllPAIValues aePa1 0 {}
+def aePaR2 : Nat × Err × PPAIs := parseAllPAIValues (aePa1 ++ aePaS1) aePaR1.1 aePaR1.2.2
+
+-- test: both calls are suspended (call 2 inside the quoted display name of the second identity, one stored)
+example : aePaR1.2.1 = .moreBytes ∧ aePaR2.2.1 = .moreBytes ∧ aePaR2.2.2.n = 1 ∧ aePaR1.1 = 5 ∧ aePaR2.1 = 15 ∧
+    aePa1 ++ aePaS1 ++ aePaS2 = aePaB ∧ aePaS1.size = 10 ∧ aePaS2.size = 12 ∧
+    (parseAllPAIValues aePaB 0 {}).2.1 = .ok ∧ (parseAllPAIValues aePaB 0 {}).2.2.n = 2 := by
+  decide +kernel
+
+-- `C02.resume_pais` on the suspended object `aePaR1`
+example :
+    RR PPAIs.obs (parseAllPAIValues (aePa1 ++ aePaS1 ++ aePaS2) aePaR2.1 aePaR2.2.2)
+      (parseAllPAIValues (aePa1 ++ aePaS1 ++ aePaS2) aePaR1.1 aePaR1.2.2) ∧
+    paOK (aePa1 ++ aePaS1 ++ aePaS2) aePaR2.1 aePaR2.2.2 ∧ aePaR2.2.2.cur.state ≠ .fin ∧
+    aePaR1.1 ≤ aePaR2.1 ∧ aePaR2.1 ≤ (aePa1 ++ aePaS1).size := by
+  have h1 := C02.resume_pais aePa1 aePaS1 0 {} (afb_paOK_new _ _ (Nat.zero_le _)) (Nat.zero_le _)
+    (ae_eta3 aePaR1 (by decide +kernel))
+  exact C02.resume_pais (aePa1 ++ aePaS1) aePaS2 aePaR1.1 aePaR1.2.2 h1.2.1
+    (by have := h1.2.2.2.2; rw [Array.size_append]; omega) (ae_eta3 aePaR2 (by decide +kernel))
+
+/-! ### `C02.resume_hdrline` -/
+
+def aeHlB : Buf := "From: \"A\" <sip:a@b>;tag=x1\r\nX".toUTF8.data
+def aeHl1 : Buf := aeHlB.extract 0 3
+def aeHlS1 : Buf := aeHlB.extract 3 17
+def aeHlS2 : Buf := aeHlB.extract 17 aeHlB.size
+def aeHlR1 : Nat × Err × Hdr × Option PHdrVals := parseHdrLine aeHl1 0 {} (some (afbNewHv 2))
+def aeHlR2 : Nat × Err × Hdr × Option PHdrVals :=
+  parseHdrLine (aeHl1 ++ aeHlS1) aeHlR1.1 aeHlR1.2.2.1 aeHlR1.2.2.2
+
+-- test: call 1 is suspended inside the header name, call 2 inside the From value (state `hFrom`)
+example : aeHlR1.2.1 = .moreBytes ∧ aeHlR2.2.1 = .moreBytes ∧ aeHlR2.2.2.1.state = .hFrom ∧ aeHlR1.1 = 3 ∧
+    aeHlR2.1 = 17 ∧ aeHl1 ++ aeHlS1 ++ aeHlS2 = aeHlB ∧ aeHlS1.size = 14 ∧ aeHlS2.size = 12 ∧
+    (parseHdrLine aeHlB 0 {} (some (afbNewHv 2))).2.1 = .ok := by
+  decide +kernel
+
+-- `C02.resume_hdrline` on the suspended pair returned by call 1
+example :
+    RR hlObs (parseHdrLine (aeHl1 ++ aeHlS1 ++ aeHlS2) aeHlR2.1 aeHlR2.2.2.1 aeHlR2.2.2.2)
+      (parseHdrLine (aeHl1 ++ aeHlS1 ++ aeHlS2) aeHlR1.1 aeHlR1.2.2.1 aeHlR1.2.2.2) ∧
+    hlOK (aeHl1 ++ aeHlS1 ++ aeHlS2) aeHlR2.1 aeHlR2.2.2.1 aeHlR2.2.2.2 ∧
+    hlPending (aeHlR2.2.2.1, aeHlR2.2.2.2) ∧ aeHlR1.1 ≤ aeHlR2.1 ∧ aeHlR2.1 ≤ (aeHl1 ++ aeHlS1).size := by
+  have h1 := C02.resume_hdrline aeHl1 aeHlS1 0 {} (some (afbNewHv 2))
+    ⟨Nat.zero_le _, hdrOK_new _, afb_hvOK_new _ _ (Nat.zero_le _) 2⟩
+    (hlPending_of_not_isVal (by simp [HState.isVal])) (ae_eta4 aeHlR1 (by decide +kernel))
+  exact C02.resume_hdrline (aeHl1 ++ aeHlS1) aeHlS2 aeHlR1.1 aeHlR1.2.2.1 aeHlR1.2.2.2 h1.2.1 h1.2.2.1
+    (ae_eta4 aeHlR2 (by decide +kernel))
+
+/-! ### `C02.resume_headers` -/
+
+def aeHsB : Buf := "Via: x\r\nCSeq: 17 INVITE\r\nContact: <sip:a@b>\r\n\r\n".toUTF8.data
+def aeHs1 : Buf := aeHsB.extract 0 12
+def aeHsS1 : Buf := aeHsB.extract 12 30
+def aeHsS2 : Buf := aeHsB.extract 30 aeHsB.size
+def aeHsNew : HdrLst := { hdrs := Array.replicate 4 {} }
+def aeHsR1 : Nat × Err × HdrLst × Option PHdrVals := parseHeaders aeHs1 0 aeHsNew (some (afbNewHv 2))
+def aeHsR2 : Nat × Err × HdrLst × Option PHdrVals :=
+  parseHeaders (aeHs1 ++ aeHsS1) aeHsR1.1 aeHsR1.2.2.1 aeHsR1.2.2.2
+
+-- test: call 1 is suspended inside the CSeq line (one header stored), call 2 inside the Contact line (two stored)
+example : aeHsR1.2.1 = .moreBytes ∧ aeHsR1.2.2.1.n = 1 ∧ aeHsR2.2.1 = .moreBytes ∧ aeHsR2.2.2.1.n = 2 ∧
+    aeHsR1.1 = 12 ∧ aeHsR2.1 = 30 ∧ aeHs1 ++ aeHsS1 ++ aeHsS2 = aeHsB ∧ aeHsS1.size = 18 ∧ aeHsS2.size = 17 ∧
+    (parseHeaders aeHsB 0 aeHsNew (some (afbNewHv 2))).2.1 = .ok ∧
+    (parseHeaders aeHsB 0 aeHsNew (some (afbNewHv 2))).2.2.1.n = 3 := by
+  decide +kernel
+
+-- `C02.resume_headers` on the suspended pair returned by call 1
+example :
+    RR hdrsObs (parseHeaders (aeHs1 ++ aeHsS1 ++ aeHsS2) aeHsR2.1 aeHsR2.2.2.1 aeHsR2.2.2.2)
+      (parseHeaders (aeHs1 ++ aeHsS1 ++ aeHsS2) aeHsR1.1 aeHsR1.2.2.1 aeHsR1.2.2.2) ∧
+    hlsOK (aeHs1 ++ aeHsS1 ++ aeHsS2) aeHsR2.2.2.1 ∧ hbOK (aeHs1 ++ aeHsS1 ++ aeHsS2) aeHsR2.1 aeHsR2.2.2.2 ∧
+    hlsPend aeHsR2.2.2.1 aeHsR2.2.2.2 ∧ aeHsR1.1 ≤ aeHsR2.1 ∧ aeHsR2.1 ≤ (aeHs1 ++ aeHsS1).size := by
+  have h0 := afb_headersInv_new aeHs1 0 (Nat.zero_le _) 4 2 false
+  have h1 := C02.resume_headers aeHs1 aeHsS1 0 aeHsNew (some (afbNewHv 2)) h0.1 h0.2.1 h0.2.2.1 h0.2.2.2
+    (ae_eta4 aeHsR1 (by decide +kernel))
+  exact C02.resume_headers (aeHs1 ++ aeHsS1) aeHsS2 aeHsR1.1 aeHsR1.2.2.1 aeHsR1.2.2.2 h1.2.1 h1.2.2.1 h1.2.2.2.1
+    (by have := h1.2.2.2.2.2; rw [Array.size_append]; omega) (ae_eta4 aeHsR2 (by decide +kernel))
+
+/-! ### `C02.resume_fline` -/
+
+def aeFlB : Buf := "INVITE sip:a@b SIP/2.0\r\nX".toUTF8.data
+def aeFl1 : Buf := aeFlB.extract 0 16
+def aeFlS1 : Buf := aeFlB.extract 16 23
+def aeFlS2 : Buf := aeFlB.extract 23 aeFlB.size
+def aeFlR1 : Nat × Err × PFLine := parseFLine aeFl1 0 {}
+def aeFlR2 : Nat × Err × PFLine := parseFLine (aeFl1 ++ aeFlS1) aeFlR1.1 aeFlR1.2.2
+
+-- test: call 1 is suspended inside the version (`INVITE sip:a@b S`), call 2 between CR and LF
+example : aeFlR1.2.1 = .moreBytes ∧ aeFlR1.2.2.state = .reqVer ∧ aeFlR2.2.1 = .moreBytes ∧
+    aeFlR2.2.2.state = .crlf ∧ aeFl1 ++ aeFlS1 ++ aeFlS2 = aeFlB ∧ aeFlS1.size = 7 ∧ aeFlS2.size = 2 ∧
+    (parseFLine aeFlB 0 {}).2.1 = .ok ∧ (parseFLine aeFlB 0 {}).1 = 24 := by
+  decide +kernel
+
+-- `C02.resume_fline` on the suspended object returned by call 1
+example :
+    parseFLine (aeFl1 ++ aeFlS1 ++ aeFlS2) aeFlR2.1 aeFlR2.2.2 =
+      parseFLine (aeFl1 ++ aeFlS1 ++ aeFlS2) aeFlR1.1 aeFlR1.2.2 ∧
+    flOK aeFlR2.2.2 ∧ aeFlR2.1 ≤ (aeFl1 ++ aeFlS1).size := by
+  have h1 := C02.resume_fline aeFl1 aeFlS1 0 {} (Nat.zero_le _) afb_flOK_new (by decide +kernel)
+    (ae_eta3 aeFlR1 (by decide +kernel))
+  exact C02.resume_fline (aeFl1 ++ aeFlS1) aeFlS2 aeFlR1.1 aeFlR1.2.2
+    (by have := h1.2.2; rw [Array.size_append]; omega) h1.2.1 (by decide +kernel)
+    (ae_eta3 aeFlR2 (by decide +kernel))
+
+/-! ### `C02.resume_nameaddr` -/
+
+def aeNaB : Buf := "\"Al\" <sip:a@b;x=1>;tag=t1;y=2\r\nX".toUTF8.data
+def aeNa1 : Buf := aeNaB.extract 0 3
+def aeNaS1 : Buf := aeNaB.extract 3 22
+def aeNaS2 : Buf := aeNaB.extract 22 aeNaB.size
+def aeNaR1 : Nat × Err × PFromBody := parseNameAddrPVal HdrFrom aeNa1 0 {}
+def aeNaR2 : Nat × Err × PFromBody := parseNameAddrPVal HdrFrom (aeNa1 ++ aeNaS1) aeNaR1.1 aeNaR1.2.2
+
+-- test: call 1 is suspended inside the quoted display name, call 2 inside the name of the first parameter
+example : aeNaR1.2.1 = .moreBytes ∧ aeNaR2.2.1 = .moreBytes ∧ aeNaR2.2.2.state = .paramName ∧
+    aeNa1 ++ aeNaS1 ++ aeNaS2 = aeNaB ∧ aeNaS1.size = 19 ∧ aeNaS2.size = 10 ∧
+    (parseNameAddrPVal HdrFrom aeNaB 0 {}).2.1 = .ok := by
+  decide +kernel
+
+-- `C02.resume_nameaddr` on the suspended object returned by call 1
+example :
+    ResEq PFromBody.obs (parseNameAddrPVal HdrFrom (aeNa1 ++ aeNaS1 ++ aeNaS2) aeNaR2.1 aeNaR2.2.2)
+      (parseNameAddrPVal HdrFrom (aeNa1 ++ aeNaS1 ++ aeNaS2) aeNaR1.1 aeNaR1.2.2) ∧
+    naOK (aeNa1 ++ aeNaS1 ++ aeNaS2) aeNaR2.1 aeNaR2.2.2 := by
+  have h1 := C02.resume_nameaddr HdrFrom aeNa1 aeNaS1 0 {} aeNaR1.1 aeNaR1.2.2 (naOK_new _ _ (Nat.zero_le _))
+    (ae_eta3 aeNaR1 (by decide +kernel))
+  exact C02.resume_nameaddr HdrFrom (aeNa1 ++ aeNaS1) aeNaS2 aeNaR1.1 aeNaR1.2.2 aeNaR2.1 aeNaR2.2.2 h1.2
+    (ae_eta3 aeNaR2 (by decide +kernel))
+
+/-! ### `C02.resume_cseq` -/
+
+def aeCsB : Buf := " 4711 INVITE\r\nX".toUTF8.data
+def aeCs1 : Buf := aeCsB.extract 0 3
+def aeCsS1 : Buf := aeCsB.extract 3 9
+def aeCsS2 : Buf := aeCsB.extract 9 aeCsB.size
+def aeCsR1 : Nat × Err × PCSeqBody := parseCSeqVal aeCs1 0 {}
+def aeCsR2 : Nat × Err × PCSeqBody := parseCSeqVal (aeCs1 ++ aeCsS1) aeCsR1.1 aeCsR1.2.2
+
+-- test: call 1 is suspended inside the number (` 47`), call 2 inside the method name (` 4711 INV`)
+example : aeCsR1.2.1 = .moreBytes ∧ aeCsR1.2.2.cseqNo = 47 ∧ aeCsR2.2.1 = .moreBytes ∧ aeCsR2.2.2.cseqNo = 4711 ∧
+    aeCs1 ++ aeCsS1 ++ aeCsS2 = aeCsB ∧ aeCsS1.size = 6 ∧ aeCsS2.size = 6 ∧
+    (parseCSeqVal aeCsB 0 {}).2.1 = .ok := by
+  decide +kernel
+
+-- `C02.resume_cseq` on the suspended object returned by call 1
+example :
+    parseCSeqVal (aeCs1 ++ aeCsS1 ++ aeCsS2) aeCsR2.1 aeCsR2.2.2 =
+      parseCSeqVal (aeCs1 ++ aeCsS1 ++ aeCsS2) aeCsR1.1 aeCsR1.2.2 ∧
+    csOK (aeCs1 ++ aeCsS1 ++ aeCsS2) aeCsR2.1 aeCsR2.2.2 := by
+  have h1 := C02.resume_cseq aeCs1 aeCsS1 0 {} aeCsR1.1 aeCsR1.2.2
+    (Or.inr ⟨Nat.zero_le _, (fun hh => by cases hh), (fun hh => by cases hh)⟩) (ae_eta3 aeCsR1 (by decide +kernel))
+  exact C02.resume_cseq (aeCs1 ++ aeCsS1) aeCsS2 aeCsR1.1 aeCsR1.2.2 aeCsR2.1 aeCsR2.2.2 h1.2
+    (ae_eta3 aeCsR2 (by decide +kernel))
+
+/-! ## C03: `stable_msg` with a NON-exempt definitive verdict -/
+
+/-- a request with a Content-Length header and a 3-byte body -/
+def aeM3B : Buf := "OPTIONS sip:a@b SIP/2.0\r\nCall-ID: x\r\nCSeq: 1 OPTIONS\r\nFrom: <sip:a@b>;tag=1\r\nTo: <sip:c@d>\r\nContent-Length: 3\r\n\r\nabc".toUTF8.data
+/-- bytes that arrive later (the start of the next message) -/
+def aeM3S : Buf := "INVITE sip:x@y SIP/2.0\r\n".toUTF8.data
+/-- an object from Init with caller arrays of capacity 8 (headers) and 2 (contacts) -/
+def aeM3I : PSIPMsg := ({} : PSIPMsg).init 0 ((some ()).map fun _ => Array.replicate 8 {})
+  ((some ()).map fun _ => Array.replicate 2 {})
+def aeM3R : Nat × Err × PSIPMsg := parseSIPMsg aeM3B 0 aeM3I 0
+
+-- test: OK at the end of the body (116), Content-Length parsed, so the result is NOT in the exempted class
+example : aeM3R.2.1 = .ok ∧ aeM3R.1 = 116 ∧ aeM3R.2.2.pv.clen.parsed = true ∧ aeM3S.size = 24 := by decide +kernel
+
+-- `C03.stable_msg` (flags 0) on an OK message with Content-Length: the verdict, the offset and the object do not
+-- change when the next message's bytes arrive
+example : parseSIPMsg (aeM3B ++ aeM3S) 0 aeM3I 0 = (aeM3R.1, .ok, aeM3R.2.2) :=
+  C03.stable_msg aeM3B aeM3S 0 aeM3I 0 (msgOK_init _ 0 (Nat.zero_le _) {} 0 8 2 (some ()) (some ()))
+    (by decide +kernel) (by decide) (ae_eta3 aeM3R (by decide +kernel)) (by decide)
+    (fun hx => by have h := hx.2.1; revert h; decide +kernel)
+
+/-- a first line with a bad byte (CR right after the method) -/
+def aeM3Bad : Buf := "INVITE\r\nVia: SIP/2.0/UDP h\r\n\r\n".toUTF8.data
+def aeM3RBad (flags : Nat) : Nat × Err × PSIPMsg := parseSIPMsg aeM3Bad 0 aeM3I flags
+
+-- test: BadChar at offset 6, with flags 0 and with the Content-Length-required flag
+example : (aeM3RBad 0).2.1 = .badChar ∧ (aeM3RBad 0).1 = 6 ∧ (aeM3RBad SIPMsgCLenReqF).2.1 = .badChar ∧
+    (aeM3RBad SIPMsgCLenReqF).1 = 6 := by decide +kernel
+
+-- `C03.stable_msg` on a BadChar first line: its hypotheses ALLOW it only when the flags already rule out "body to the
+-- end of the buffer" (here: Content-Length required) …
+example : parseSIPMsg (aeM3Bad ++ aeM3S) 0 aeM3I SIPMsgCLenReqF =
+    ((aeM3RBad SIPMsgCLenReqF).1, .badChar, (aeM3RBad SIPMsgCLenReqF).2.2) :=
+  C03.stable_msg aeM3Bad aeM3S 0 aeM3I SIPMsgCLenReqF (msgOK_init _ 0 (Nat.zero_le _) {} 0 8 2 (some ()) (some ()))
+    (by decide +kernel) (by decide) (ae_eta3 (aeM3RBad SIPMsgCLenReqF) (by decide +kernel)) (by decide)
+    (fun hx => by have h := hx.2.2; revert h; decide)
+
+-- … with flags 0 the side condition `¬ bodyToEnd` of `stable_msg` is FALSE for this result (no Content-Length was
+-- parsed before the error), so `stable_msg` does not apply (test) …
+example : bodyToEnd 0 (aeM3RBad 0).2.2 := ⟨by decide, by decide +kernel, by decide⟩
+
+-- … and the strengthened `C03.stable_msg_errors` (no side condition) covers it
+example : parseSIPMsg (aeM3Bad ++ aeM3S) 0 aeM3I 0 = ((aeM3RBad 0).1, .badChar, (aeM3RBad 0).2.2) :=
+  C03.stable_msg_errors aeM3Bad aeM3S 0 aeM3I 0 (msgOK_init _ 0 (Nat.zero_le _) {} 0 8 2 (some ()) (some ()))
+    (by decide +kernel) (by decide) (ae_eta3 (aeM3RBad 0) (by decide +kernel)) (by decide) (by decide)
+
+/-! ## C04 -/
+
+/-- **(A) C04, the missing lemma**: a NEW contacts object (cleared array of any capacity) satisfies the safety
+    invariant `CtSafe` at ANY offset inside the buffer — so `C04.contacts_never_panics` applies to the first call -/
+theorem ae_CtSafe_new (b : Buf) (o : Nat) (ho : o ≤ b.size) (k : Nat) :
+    CtSafe b o ({ vals := Array.replicate k {} } : PContacts) := by
+  have hw : (({ vals := Array.replicate k {} } : PContacts)).wrap = { vals := Array.replicate k {} } := by
+    unfold PContacts.wrap; simp [PFromBody.parsed]
+  have h := (CtIdle_new b k).start o ho 0 (CtIn_new b o ho k)
+  rw [hw] at h
+  exact h
+
+/-- **(A) C04, the missing lemma**: a NEW identities object satisfies `PaSafe` at any offset inside the buffer -/
+theorem ae_PaSafe_new (b : Buf) (o : Nat) (ho : o ≤ b.size) : PaSafe b o ({} : PPAIs) := by
+  have hw : (({} : PPAIs)).wrap = {} := by unfold PPAIs.wrap; simp [PFromBody.parsed]
+  have h := (PaIdle_new b).start o ho 0 (PaIn_new b o ho)
+  rw [hw] at h
+  exact h
+
+/-! ### `C04.contacts_never_panics`: first call on a new object (offset 9, behind `Contact: `), then on the
+      suspended object it returned -/
+
+def aeC4B : Buf := "Contact: <sip:a@b>;expires=5, <sip:c@d>\r\nX".toUTF8.data
+def aeC41 : Buf := aeC4B.extract 0 20
+def aeC4S : Buf := aeC4B.extract 20 aeC4B.size
+def aeC4New : PContacts := { vals := Array.replicate 2 {} }
+def aeC4R1 : Nat × Err × PContacts := parseAllContactValues aeC41 9 aeC4New
+def aeC4R2 : Nat × Err × PContacts := parseAllContactValues (aeC41 ++ aeC4S) aeC4R1.1 aeC4R1.2.2
+
+-- test: call 1 is suspended inside the parameter of the first value; call 2 (resumed) is definitive: OK, two values
+example : aeC4R1.2.1 = .moreBytes ∧ aeC4R1.1 = 20 ∧ aeC4R2.2.1 = .ok ∧ aeC4R2.1 = 41 ∧ aeC4R2.2.2.n = 2 ∧
+    aeC41 ++ aeC4S = aeC4B ∧ aeC4S.size = 22 := by decide +kernel
+
+-- `C04.contacts_never_panics` on the new object (`ae_CtSafe_new`) and then on the SUSPENDED object of call 1:
+-- no panic, every stored value inside the buffer, and after OK every field inside the consumed bytes
+example : CtOut (aeC41 ++ aeC4S) aeC4R2.2.2 ∧ CtIdle (aeC41 ++ aeC4S) aeC4R2.2.2 ∧
+    CtIn (aeC41 ++ aeC4S) aeC4R2.1 aeC4R2.2.2 ∧ aeC4R2.1 ≤ (aeC41 ++ aeC4S).size := by
+  have h1 := C04.contacts_never_panics aeC41 9 aeC4New (by decide +kernel)
+    (ae_CtSafe_new aeC41 9 (by decide +kernel) 2)
+  have hS : CtSafe (aeC41 ++ aeC4S) aeC4R1.1 aeC4R1.2.2 :=
+    (h1.2.1 (by decide +kernel)).grow (by rw [Array.size_append]; omega)
+  have h2 := C04.contacts_never_panics (aeC41 ++ aeC4S) aeC4R1.1 aeC4R1.2.2 (by decide +kernel) hS
+  have h3 := h2.2.2.1 (by decide +kernel)
+  exact ⟨h2.1, h3.1, h3.2.2, h2.2.2.2⟩
+
+/-! ### `C04.pais_never_panics` -/
+
+def aeP4B : Buf := "P-Asserted-Identity: <sip:a@b>, <tel:+1>\r\nX".toUTF8.data
+def aeP41 : Buf := aeP4B.extract 0 25
+def aeP4S : Buf := aeP4B.extract 25 aeP4B.size
+def aeP4R1 : Nat × Err × PPAIs := parseAllPAIValues aeP41 21 {}
+def aeP4R2 : Nat × Err × PPAIs := parseAllPAIValues (aeP41 ++ aeP4S) aeP4R1.1 aeP4R1.2.2
+
+-- test: call 1 (offset 21, behind the header name) is suspended inside the first URI; call 2 is definitive
+example : aeP4R1.2.1 = .moreBytes ∧ aeP4R1.1 = 25 ∧ aeP4R2.2.1 = .ok ∧ aeP4R2.1 = 42 ∧ aeP4R2.2.2.n = 2 ∧
+    aeP41 ++ aeP4S = aeP4B ∧ aeP4S.size = 18 := by decide +kernel
+
+-- `C04.pais_never_panics` on the new object (`ae_PaSafe_new`) and then on the suspended object of call 1
+example : PaOut (aeP41 ++ aeP4S) aeP4R2.2.2 ∧ PaIdle (aeP41 ++ aeP4S) aeP4R2.2.2 ∧
+    PaIn (aeP41 ++ aeP4S) aeP4R2.1 aeP4R2.2.2 ∧ aeP4R2.1 ≤ (aeP41 ++ aeP4S).size := by
+  have h1 := C04.pais_never_panics aeP41 21 {} (by decide +kernel) (ae_PaSafe_new aeP41 21 (by decide +kernel))
+  have hS : PaSafe (aeP41 ++ aeP4S) aeP4R1.1 aeP4R1.2.2 :=
+    (h1.2.1 (by decide +kernel)).grow (by rw [Array.size_append]; omega)
+  have h2 := C04.pais_never_panics (aeP41 ++ aeP4S) aeP4R1.1 aeP4R1.2.2 (by decide +kernel) hS
+  have h3 := h2.2.2.1 (by decide +kernel)
+  exact ⟨h2.1, h3.1, h3.2.2, h2.2.2.2⟩
+
+/-! ### `C04.sig_never_panics_history` with a NON-Init object (suspended inside the header block) -/
+
+def aeS4B : Buf := "INVITE sip:a@b SIP/2.0\r\nVia: SIP/2.0/UDP h;branch=z9hG4bK-a.b\r\nf: <sip:a@b>;tag=a-1\r\nTo: <sip:c@d>\r\nCall-ID: x@1.2.3.4\r\nCSeq: 1 INVITE\r\nContent-Length: 0\r\n\r\n".toUTF8.data
+def aeS41 : Buf := aeS4B.extract 0 100
+def aeS4S : Buf := aeS4B.extract 100 aeS4B.size
+def aeS4I : PSIPMsg := ({} : PSIPMsg).init 0 none none
+/-- call 1 on the first 100 bytes, from Init -/
+def aeS4R1 : Nat × Err × PSIPMsg := parseSIPMsg aeS41 0 aeS4I 0
+/-- call 2, resumed with the object call 1 returned -/
+def aeS4R2 : Nat × Err × PSIPMsg := parseSIPMsg (aeS41 ++ aeS4S) aeS4R1.1 aeS4R1.2.2 0
+
+-- test: call 1 is suspended in the header block (state `headers`, not Init) (that its verdict is MoreBytes and that
+-- call 2 ends with OK is checked where the theorem is applied below)
+example : aeS4R1.2.2.state = .headers ∧ aeS41 ++ aeS4S = aeS4B ∧ 0 < aeS4S.size := by decide +kernel
+
+/-- legitimacy of a SUSPENDED message object, for any input: if a call from a legitimate object (`msgOK2`, `MsgSafe`:
+    e.g. any Init object) returns MoreBytes, the returned object and offset satisfy both conditions on every extension
+    of the buffer (`parseSIPMsg_resume`, `C04.msg_never_panics`) -/
+theorem ae_msg_suspended_legit (b s : Buf) (hfit : b.size ≤ 65535) (o : Nat) (m0 : PSIPMsg) (flags : Nat)
+    (hok0 : msgOK2 b o m0) (hS0 : MsgSafe b o m0) {o1 : Nat} {m1 : PSIPMsg}
+    (hr1 : parseSIPMsg b o m0 flags = (o1, .moreBytes, m1)) : msgOK2 (b ++ s) o1 m1 ∧ MsgSafe (b ++ s) o1 m1 := by
+  have hle : b.size ≤ (b ++ s).size := by rw [Array.size_append]; omega
+  have hm := (C04.msg_never_panics b o m0 flags hfit hok0 hS0).2.2.2
+  rw [hr1] at hm
+  exact ⟨(parseSIPMsg_resume b s o m0 flags flags hok0 hfit hr1).2.1, (hm rfl).2.grow hle⟩
+
+/-- the chain behind the example, for ANY input cut in two and any legitimate reachable object `m0` (e.g. from Init):
+    a first call that is suspended, the resumed call ends with OK — then `C04.sig_never_panics_history` applies to the
+    suspended (non-Init) object `m1`: it is reachable (`ScReach.parse`) and legitimate (`ae_msg_suspended_legit`) -/
+theorem ae_sig_after_suspension (b s : Buf) (hfit : (b ++ s).size ≤ 65535) (o : Nat) (m0 : PSIPMsg) (flags : Nat)
+    (hR0 : ScReach m0) (hok0 : msgOK2 b o m0) (hS0 : MsgSafe b o m0) {o1 o2 : Nat} {m1 m2 : PSIPMsg}
+    (hr1 : parseSIPMsg b o m0 flags = (o1, .moreBytes, m1))
+    (hr2 : parseSIPMsg (b ++ s) o1 m1 flags = (o2, .ok, m2)) : (getMsgSig m2 (b ++ s)).2.2 = false := by
+  have hfit1 : b.size ≤ 65535 := by rw [Array.size_append] at hfit; omega
+  have hL := ae_msg_suspended_legit b s hfit1 o m0 flags hok0 hS0 hr1
+  have hR : ScReach m1 := by
+    have := ScReach.parse b o flags hR0
+    rw [hr1] at this
+    exact this
+  exact C04.sig_never_panics_history (b ++ s) o1 m1 flags hfit hR hL.1 hL.2 hr2
+
+-- `C04.sig_never_panics_history` on the suspended object `aeS4R1.2.2` (through `ae_sig_after_suspension`)
+example : (getMsgSig aeS4R2.2.2 (aeS41 ++ aeS4S)).2.2 = false :=
+  ae_sig_after_suspension aeS41 aeS4S (by decide +kernel) 0 aeS4I 0 (ScReach.init {} 0 0 0 none none)
+    (msgOK2_init aeS41 0 (Nat.zero_le _) {} 0 0 0 none none) (MsgSafe_init aeS41 0 (Nat.zero_le _) {} 0 0 0 none none)
+    (o1 := aeS4R1.1) (m1 := aeS4R1.2.2) (ae_eta3 aeS4R1 (by decide +kernel)) (ae_eta3 aeS4R2 (by decide +kernel))
+
+-- test: the signature itself is produced (verdict OK)
+example : (getMsgSig aeS4R2.2.2 (aeS41 ++ aeS4S)).2.1 = .ok := by decide +kernel
+
+/-! ## C05: `layout_one_call` and `fields_inside_consumed` on a RESUMED object -/
+
+/-- two bytes that do not belong to the message, a request with a 3-byte body, one byte of the next message -/
+def aeL5B : Buf := "\r\nINFO sip:a@b SIP/2.0\r\nl: 3\r\n\r\nabcX".toUTF8.data
+def aeL51 : Buf := aeL5B.extract 0 27
+def aeL5S : Buf := aeL5B.extract 27 aeL5B.size
+def aeL5I : PSIPMsg := ({} : PSIPMsg).init 0 none none
+/-- call 1 from Init at offset 2, on the first 27 bytes: suspended inside the header block -/
+def aeL5R1 : Nat × Err × PSIPMsg := parseSIPMsg aeL51 2 aeL5I 0
+/-- call 2, resumed -/
+def aeL5R2 : Nat × Err × PSIPMsg := parseSIPMsg (aeL51 ++ aeL5S) aeL5R1.1 aeL5R1.2.2 0
+
+-- test: the object of call 1 is not an Init object (state `headers`, start offset 2 remembered)
+example : aeL5R1.2.2.state = .headers ∧ aeL5R1.2.2.offs = 2 ∧ aeL51 ++ aeL5S = aeL5B ∧ aeL5S.size = 9 := by
+  decide +kernel
+
+/-- the legitimacy of the suspended object of call 1 on the longer buffer -/
+theorem aeL5_legit : msgOK2 (aeL51 ++ aeL5S) aeL5R1.1 aeL5R1.2.2 ∧ MsgSafe (aeL51 ++ aeL5S) aeL5R1.1 aeL5R1.2.2 :=
+  ae_msg_suspended_legit aeL51 aeL5S (by decide +kernel) 2 aeL5I 0
+    (msgOK2_init aeL51 2 (by decide +kernel) {} 0 0 0 none none)
+    (MsgSafe_init aeL51 2 (by decide +kernel) {} 0 0 0 none none) (ae_eta3 aeL5R1 (by decide +kernel))
+
+-- `C05.layout_one_call` on the resumed object: the layout is relative to the REMEMBERED start offset (`m.offs` = 2)
+example : ∃ h, aeL5R1.2.2.offs ≤ h ∧ h ≤ aeL5R2.1 ∧ aeL5R2.1 ≤ (aeL51 ++ aeL5S).size ∧
+    MsgLayout aeL5R2.2.2 aeL5R1.2.2.offs h aeL5R2.1 := by
+  have h := C05.layout_one_call (aeL51 ++ aeL5S) aeL5R1.1 aeL5R1.2.2 0 (by decide +kernel) aeL5_legit.1 aeL5_legit.2
+    (ae_eta3 aeL5R2 (by decide +kernel))
+  rw [if_neg (by decide +kernel)] at h
+  exact h
+
+-- test: the numbers — message [2, 35), body [32, 35), the byte `X` at 35 is not consumed
+example : aeL5R2.1 = 35 ∧ aeL5R2.2.2.body = ⟨32, 3⟩ ∧ aeL5R2.2.2.rawOffs = 2 ∧ aeL5R2.2.2.rawLen = 33 := by
+  decide +kernel
+
+-- `C05.fields_inside_consumed` on the resumed object
+example : MsgRelIn (aeL51 ++ aeL5S) aeL5R2.1 aeL5R2.2.2 ∧ aeL5R2.2.2.body.inside aeL5R2.1 :=
+  C05.fields_inside_consumed (aeL51 ++ aeL5S) aeL5R1.1 aeL5R1.2.2 0 (by decide +kernel) aeL5_legit.1 aeL5_legit.2
+    (ae_eta3 aeL5R2 (by decide +kernel))
+
+/-! ## C06: `pipeline_second_message_ok` on two real messages in one buffer -/
+
+/-- message 1: a request with Content-Length and a 3-byte body -/
+def aeP6A : Buf := "INFO sip:a@b SIP/2.0\r\nCall-ID: x\r\nCSeq: 1 INFO\r\nContent-Length: 3\r\n\r\nabc".toUTF8.data
+/-- message 2: a reply with an empty body -/
+def aeP6B : Buf := "SIP/2.0 200 OK\r\nCall-ID: x\r\nCSeq: 1 INFO\r\nContent-Length: 0\r\n\r\n".toUTF8.data
+def aeP6I : PSIPMsg := ({} : PSIPMsg).init 0 ((some ()).map fun _ => Array.replicate 6 {})
+  ((none : Option Unit).map fun _ => Array.replicate 0 {})
+/-- message 2 parsed alone -/
+def aeP6R : Nat × Err × PSIPMsg := parseSIPMsg aeP6B 0 aeP6I 0
+
+-- test: message 1 alone is OK and fills its text exactly (72 bytes); message 2 alone is OK at its end (63), a reply
+example : (parseSIPMsg aeP6A 0 aeP6I 0).2.1 = .ok ∧ (parseSIPMsg aeP6A 0 aeP6I 0).1 = aeP6A.size ∧ aeP6A.size = 72 ∧
+    aeP6R.2.1 = .ok ∧ aeP6R.1 = 63 ∧ aeP6R.2.2.fl.status = 200 ∧ aeP6R.2.2.fl.reason = ⟨12, 2⟩ := by
+  decide +kernel
+
+-- `C06.pipeline_second_message_ok`: parsing the joined buffer at the end of message 1 returns message 2 as parsed
+-- alone, moved by 72
+example : parseSIPMsg (aeP6A ++ aeP6B) aeP6A.size aeP6I 0 = (aeP6A.size + aeP6R.1, .ok, shMsg aeP6A.size aeP6R.2.2) :=
+  C06.pipeline_second_message_ok aeP6A aeP6B 0 {} 0 6 0 (some ()) none (by decide +kernel)
+    (ae_eta3 aeP6R (by decide +kernel))
+
+-- test: what "moved" means here — the reason phrase of the reply is reported at 72 + 12
+example : (shMsg aeP6A.size aeP6R.2.2).fl.reason = ⟨84, 2⟩ ∧ (shMsg aeP6A.size aeP6R.2.2).fl.status = 200 := by
+  decide +kernel
+
+/-! ## C10: the run-level exactness theorems on SUSPENDED objects
+
+  The value text is cut inside the number: call 1 sees ` 47`, is suspended, and the resumed call on the whole input
+  finishes with OK. The invariant of the suspended object (`ClNum` / `CsNum`) is obtained from `afb_*_more_inv`
+  applied to call 1 (new object: `ClNum_new` / `CsNum_new`). -/
+
+def aeN10B : Buf := " 4711\r\nX".toUTF8.data
+def aeN101 : Buf := aeN10B.extract 0 3
+def aeN10S : Buf := aeN10B.extract 3 aeN10B.size
+
+/-- Expires / unsigned value: call 1 on ` 47` -/
+def aeU10R1 : Nat × Err × PUIntBody := parseUIntVal aeN101 0 {}
+def aeU10R2 : Nat × Err × PUIntBody := parseUIntVal (aeN101 ++ aeN10S) aeU10R1.1 aeU10R1.2.2
+
+-- test: the suspended object holds the partial number 47; the resumed call reports 4711 in the field [1, 5)
+example : aeU10R1.2.1 = .moreBytes ∧ aeU10R1.2.2.uiVal = 47 ∧ aeU10R2.2.1 = .ok ∧ aeU10R2.2.2.uiVal = 4711 ∧
+    aeU10R2.2.2.sVal = ⟨1, 4⟩ ∧ aeN101 ++ aeN10S = aeN10B ∧ aeN10S.size = 5 := by decide +kernel
+
+-- `C10.uint_value_exact` on the suspended object
+example : NumDone (aeN101 ++ aeN10S) aeU10R2.2.2.sVal aeU10R2.2.2.uiVal := by
+  have h1 := afb_uint_more_inv aeN101 aeN10S 0 {} (by decide +kernel) (Nat.zero_le _) (ClNum_new _ _)
+    (ae_eta3 aeU10R1 (by decide +kernel))
+  exact C10.uint_value_exact (aeN101 ++ aeN10S) aeU10R1.1 aeU10R1.2.2 (by decide +kernel)
+    (by have := h1.2.1; rw [Array.size_append]; omega) h1.1 (ae_eta3 aeU10R2 (by decide +kernel))
+
+/-- Content-Length: the same cuts -/
+def aeL10R1 : Nat × Err × PUIntBody := parseCLenVal aeN101 0 {}
+def aeL10R2 : Nat × Err × PUIntBody := parseCLenVal (aeN101 ++ aeN10S) aeL10R1.1 aeL10R1.2.2
+
+-- `C10.clen_value_exact` on the suspended object
+example : NumDone (aeN101 ++ aeN10S) aeL10R2.2.2.sVal aeL10R2.2.2.uiVal := by
+  have h1 := afb_clen_more_inv aeN101 aeN10S 0 {} (by decide +kernel) (Nat.zero_le _) (ClNum_new _ _)
+    (ae_eta3 aeL10R1 (by decide +kernel))
+  exact C10.clen_value_exact (aeN101 ++ aeN10S) aeL10R1.1 aeL10R1.2.2 (by decide +kernel)
+    (by have := h1.2.1; rw [Array.size_append]; omega) h1.1 (ae_eta3 aeL10R2 (by decide +kernel))
+
+-- test: the value
+example : aeL10R2.2.2.uiVal = 4711 ∧ aeL10R1.2.2.uiVal = 47 := by decide +kernel
+
+/-- CSeq: ` 4711 INVITE`, cut after ` 47` -/
+def aeQ10B : Buf := " 4711 INVITE\r\nX".toUTF8.data
+def aeQ101 : Buf := aeQ10B.extract 0 3
+def aeQ10S : Buf := aeQ10B.extract 3 aeQ10B.size
+def aeQ10R1 : Nat × Err × PCSeqBody := parseCSeqVal aeQ101 0 {}
+def aeQ10R2 : Nat × Err × PCSeqBody := parseCSeqVal (aeQ101 ++ aeQ10S) aeQ10R1.1 aeQ10R1.2.2
+
+-- test
+example : aeQ10R1.2.2.cseqNo = 47 ∧ aeQ10R2.2.2.cseqNo = 4711 ∧ aeQ10R2.2.2.cseq = ⟨1, 4⟩ ∧
+    aeQ101 ++ aeQ10S = aeQ10B := by decide +kernel
+
+-- `C10.cseq_value_exact` on the suspended object (its side condition on finished objects is vacuous: the object is
+-- not finished, by `afb_cseq_more_inv`)
+example : NumDone (aeQ101 ++ aeQ10S) aeQ10R2.2.2.cseq aeQ10R2.2.2.cseqNo := by
+  have h1 := afb_cseq_more_inv aeQ101 aeQ10S 0 {} (by decide +kernel) (Nat.zero_le _) (CsNum_new _ _)
+    (ae_eta3 aeQ10R1 (by decide +kernel))
+  exact C10.cseq_value_exact (aeQ101 ++ aeQ10S) aeQ10R1.1 aeQ10R1.2.2 (by decide +kernel)
+    (by have := h1.2.1; rw [Array.size_append]; omega) h1.1 (fun hf => absurd hf h1.2.2)
+    (ae_eta3 aeQ10R2 (by decide +kernel))
+
+/-! ### `C10.nameaddr_numbers_resume`: a Contact value cut inside the digits of `expires` -/
+
+def aeE10B : Buf := "<sip:a@b>;expires=3600;q=0.5\r\nX".toUTF8.data
+def aeE101 : Buf := aeE10B.extract 0 20
+def aeE10S : Buf := aeE10B.extract 20 aeE10B.size
+/-- call 1 on `<sip:a@b>;expires=36` -/
+def aeE10R1 : Nat × Err × PFromBody := parseNameAddrPVal HdrContact aeE101 0 {}
+def aeE10R2 : Nat × Err × PFromBody := parseNameAddrPVal HdrContact (aeE101 ++ aeE10S) aeE10R1.1 aeE10R1.2.2
+
+-- test: call 1 is suspended inside the value of `expires`; the resumed call reports 3600 and q = 0.5
+example : aeE10R1.2.1 = .moreBytes ∧ aeE10R1.2.2.state = .paramVal ∧ aeE10R2.2.1 = .ok ∧
+    aeE10R2.2.2.hasExpires = true ∧ aeE10R2.2.2.expires = 3600 ∧ aeE10R2.2.2.q = 500 ∧
+    aeE101 ++ aeE10S = aeE10B := by decide +kernel
+
+-- `C10.nameaddr_numbers_resume` with all hypotheses instantiated (new object, call 1 suspended, call 2)
+example : NrOut (multipleValsOk HdrContact) (aeE101 ++ aeE10S) {} 0 aeE10R2.1 aeE10R2.2.2 :=
+  (C10.nameaddr_numbers_resume HdrContact aeE101 aeE10S {} 0 0 {} (nr_entry_new aeE101 0 (Nat.zero_le _))
+    (ae_eta3 aeE10R1 (by decide +kernel)) (ae_eta3 aeE10R2 (e := .ok) (by decide +kernel))).1
+
+/-! ## C11: position independence for SUSPENDED objects
+
+  `t = t1 ++ s` is a value text, `pre` a prefix (here a header name). Call 1 on `t1` from a new object is suspended
+  and returns `(o1, st1)`. The theorem is applied to `st1` (translated by `pre.size`) on `pre ++ t`; its safety
+  hypothesis comes from the `C04.*_never_panics` theorem applied to call 1, grown to `t`. A test shows that the
+  translated suspended object IS the object the parser returns for call 1 behind the prefix. -/
+
+def aeSh11Pre : Buf := "Call-ID: ".toUTF8.data
+
+/-! ### `C11.shift_callid` -/
+def aeCi11T1 : Buf := "a7@h".toUTF8.data
+def aeCi11S : Buf := "ost\r\nX".toUTF8.data
+def aeCi11R1 : Nat × Err × PCallIDBody := parseCallIDVal aeCi11T1 0 {}
+
+-- test: suspended inside the Call-ID text; the translated object is what the parser returns behind the prefix
+example : aeCi11R1.2.1 = .moreBytes ∧ aeCi11R1.2.2.state = .found ∧
+    (parseCallIDVal (aeSh11Pre ++ aeCi11T1) aeSh11Pre.size {}).2.2 = shCi aeSh11Pre.size aeCi11R1.2.2 ∧
+    (parseCallIDVal (aeCi11T1 ++ aeCi11S) aeCi11R1.1 aeCi11R1.2.2).2.1 = .ok := by decide +kernel
+
+example : parseCallIDVal (aeSh11Pre ++ (aeCi11T1 ++ aeCi11S)) (aeSh11Pre.size + aeCi11R1.1)
+      (shCi aeSh11Pre.size aeCi11R1.2.2) =
+    shRes aeSh11Pre.size (shCi aeSh11Pre.size) (parseCallIDVal (aeCi11T1 ++ aeCi11S) aeCi11R1.1 aeCi11R1.2.2) := by
+  have h1 : CiSafe aeCi11T1 aeCi11R1.1 aeCi11R1.2.2 :=
+    C04.callid_never_panics aeCi11T1 0 {} ⟨Nat.zero_le _, Nat.zero_le _, PField.inside_zero _, rfl⟩
+  exact C11.shift_callid aeSh11Pre (aeCi11T1 ++ aeCi11S) aeCi11R1.1 aeCi11R1.2.2
+    (h1.grow (by rw [Array.size_append]; omega)) (by decide +kernel)
+
+/-! ### `C11.shift_uint`, `C11.shift_clen` -/
+def aeUi11T1 : Buf := " 47".toUTF8.data
+def aeUi11S : Buf := "11\r\nX".toUTF8.data
+def aeUi11R1 : Nat × Err × PUIntBody := parseUIntVal aeUi11T1 0 {}
+def aeCl11R1 : Nat × Err × PUIntBody := parseCLenVal aeUi11T1 0 {}
+
+-- test: suspended inside the number (47 so far); the translated object is what the parser returns behind the prefix
+example : aeUi11R1.2.1 = .moreBytes ∧ aeUi11R1.2.2.uiVal = 47 ∧ aeUi11R1.2.2.state = .found ∧
+    (parseUIntVal (aeSh11Pre ++ aeUi11T1) aeSh11Pre.size {}).2.2 = shCl aeSh11Pre.size aeUi11R1.2.2 ∧
+    aeCl11R1.2.1 = .moreBytes ∧ aeCl11R1.2.2.uiVal = 47 ∧
+    (parseCLenVal (aeUi11T1 ++ aeUi11S) aeCl11R1.1 aeCl11R1.2.2).2.2.uiVal = 4711 := by decide +kernel
+
+example : parseUIntVal (aeSh11Pre ++ (aeUi11T1 ++ aeUi11S)) (aeSh11Pre.size + aeUi11R1.1)
+      (shCl aeSh11Pre.size aeUi11R1.2.2) =
+    shRes aeSh11Pre.size (shCl aeSh11Pre.size) (parseUIntVal (aeUi11T1 ++ aeUi11S) aeUi11R1.1 aeUi11R1.2.2) := by
+  have h1 : ClSafe aeUi11T1 aeUi11R1.1 aeUi11R1.2.2 :=
+    C04.uint_never_panics aeUi11T1 0 {} ⟨Nat.zero_le _, Nat.zero_le _, PField.inside_zero _, rfl⟩
+  exact C11.shift_uint aeSh11Pre (aeUi11T1 ++ aeUi11S) aeUi11R1.1 aeUi11R1.2.2
+    (h1.grow (by rw [Array.size_append]; omega)) (by decide +kernel)
+
+example : parseCLenVal (aeSh11Pre ++ (aeUi11T1 ++ aeUi11S)) (aeSh11Pre.size + aeCl11R1.1)
+      (shCl aeSh11Pre.size aeCl11R1.2.2) =
+    shRes aeSh11Pre.size (shCl aeSh11Pre.size) (parseCLenVal (aeUi11T1 ++ aeUi11S) aeCl11R1.1 aeCl11R1.2.2) := by
+  have h1 : ClSafe aeUi11T1 aeCl11R1.1 aeCl11R1.2.2 :=
+    ((C04.clen_never_panics aeUi11T1 0 {} ⟨Nat.zero_le _, Nat.zero_le _, PField.inside_zero _, rfl⟩).2.1
+      (by decide +kernel))
+  exact C11.shift_clen aeSh11Pre (aeUi11T1 ++ aeUi11S) aeCl11R1.1 aeCl11R1.2.2
+    (h1.grow (by rw [Array.size_append]; omega)) (by decide +kernel)
+
+/-! ### `C11.shift_cseq` -/
+def aeCs11T1 : Buf := "47 INV".toUTF8.data
+def aeCs11S : Buf := "ITE\r\nX".toUTF8.data
+def aeCs11R1 : Nat × Err × PCSeqBody := parseCSeqVal aeCs11T1 0 {}
+
+-- test: suspended inside the method name (number 47 complete); translated object = parser's object behind the prefix
+example : aeCs11R1.2.1 = .moreBytes ∧ aeCs11R1.2.2.state = .foundMethod ∧ aeCs11R1.2.2.cseqNo = 47 ∧
+    (parseCSeqVal (aeSh11Pre ++ aeCs11T1) aeSh11Pre.size {}).2.2 = shCs aeSh11Pre.size aeCs11R1.2.2 ∧
+    (parseCSeqVal (aeCs11T1 ++ aeCs11S) aeCs11R1.1 aeCs11R1.2.2).2.1 = .ok := by decide +kernel
+
+example : parseCSeqVal (aeSh11Pre ++ (aeCs11T1 ++ aeCs11S)) (aeSh11Pre.size + aeCs11R1.1)
+      (shCs aeSh11Pre.size aeCs11R1.2.2) =
+    shRes aeSh11Pre.size (shCs aeSh11Pre.size) (parseCSeqVal (aeCs11T1 ++ aeCs11S) aeCs11R1.1 aeCs11R1.2.2) := by
+  have h1 : CsSafe aeCs11T1 aeCs11R1.1 aeCs11R1.2.2 :=
+    (C04.cseq_never_panics aeCs11T1 0 {} (by decide +kernel)
+      ⟨Nat.zero_le _, Nat.zero_le _, PField.inside_zero _, PField.inside_zero _, PField.inside_zero _, rfl⟩).2.2
+      (by decide +kernel)
+  exact C11.shift_cseq aeSh11Pre (aeCs11T1 ++ aeCs11S) aeCs11R1.1 aeCs11R1.2.2
+    (h1.grow (by rw [Array.size_append]; omega))
+    ⟨fun _ => by decide +kernel, fun _ => by decide +kernel⟩ (by decide +kernel)
+
+/-! ### `C11.shift_fline_request`: a request line suspended inside the version -/
+def aeFl11Pre : Buf := "\r\n\r\n".toUTF8.data
+def aeFq11T1 : Buf := "INVITE sip:a@b S".toUTF8.data
+def aeFq11S : Buf := "IP/2.0\r\nX".toUTF8.data
+def aeFq11R1 : Nat × Err × PFLine := parseFLine aeFq11T1 0 {}
+
+-- test: suspended in state `reqVer` (method and URI already stored); translated object = parser's object behind the prefix
+example : aeFq11R1.2.1 = .moreBytes ∧ aeFq11R1.2.2.state = .reqVer ∧ aeFq11R1.2.2.uri = ⟨7, 7⟩ ∧
+    (parseFLine (aeFl11Pre ++ aeFq11T1) aeFl11Pre.size {}).2.2 = shReq aeFl11Pre.size aeFq11R1.2.2 ∧
+    (parseFLine (aeFq11T1 ++ aeFq11S) aeFq11R1.1 aeFq11R1.2.2).2.1 = .ok := by decide +kernel
+
+example : parseFLine (aeFl11Pre ++ (aeFq11T1 ++ aeFq11S)) (aeFl11Pre.size + aeFq11R1.1)
+      (shReq aeFl11Pre.size aeFq11R1.2.2) =
+    shRes aeFl11Pre.size (shReq aeFl11Pre.size) (parseFLine (aeFq11T1 ++ aeFq11S) aeFq11R1.1 aeFq11R1.2.2) := by
+  have h1 : FlSafe aeFq11T1 aeFq11R1.1 aeFq11R1.2.2 :=
+    C04.fline_never_panics aeFq11T1 0 {} (by decide +kernel) (FlSafe_new _ _ (Nat.zero_le _))
+  exact C11.shift_fline_request aeFl11Pre (aeFq11T1 ++ aeFq11S) aeFq11R1.1 aeFq11R1.2.2
+    (Or.inr (Or.inr (Or.inl (by decide +kernel)))) (h1.grow (by rw [Array.size_append]; omega)) (by decide +kernel)
+
+/-! ### `C11.shift_fline_reason`: a status line suspended inside the reason phrase -/
+def aeFr11T1 : Buf := "SIP/2.0 180 Ringi".toUTF8.data
+def aeFr11S : Buf := "ng\r\nX".toUTF8.data
+def aeFr11R1 : Nat × Err × PFLine := parseFLine aeFr11T1 0 {}
+
+-- test: suspended in state `rplReason` with the status 180 stored
+example : aeFr11R1.2.1 = .moreBytes ∧ aeFr11R1.2.2.state = .rplReason ∧ aeFr11R1.2.2.status = 180 ∧
+    (parseFLine (aeFl11Pre ++ aeFr11T1) aeFl11Pre.size {}).2.2 = shRpl aeFl11Pre.size aeFr11R1.2.2 ∧
+    (parseFLine (aeFr11T1 ++ aeFr11S) aeFr11R1.1 aeFr11R1.2.2).2.1 = .ok := by decide +kernel
+
+example : parseFLine (aeFl11Pre ++ (aeFr11T1 ++ aeFr11S)) (aeFl11Pre.size + aeFr11R1.1)
+      (shRpl aeFl11Pre.size aeFr11R1.2.2) =
+    shRes aeFl11Pre.size (shRpl aeFl11Pre.size) (parseFLine (aeFr11T1 ++ aeFr11S) aeFr11R1.1 aeFr11R1.2.2) := by
+  have h1 : FlSafe aeFr11T1 aeFr11R1.1 aeFr11R1.2.2 :=
+    C04.fline_never_panics aeFr11T1 0 {} (by decide +kernel) (FlSafe_new _ _ (Nat.zero_le _))
+  exact C11.shift_fline_reason aeFl11Pre (aeFr11T1 ++ aeFr11S) aeFr11R1.1 aeFr11R1.2.2
+    (by decide +kernel) (h1.grow (by rw [Array.size_append]; omega)) (by decide +kernel)
+
+/-! ### `C11.shift_hdrline_resume`: a To line suspended inside the URI -/
+def aeHl11Pre : Buf := "Via: SIP/2.0/UDP h\r\n".toUTF8.data
+def aeHl11T : Buf := "To: \"B\" <sip:b".toUTF8.data
+def aeHl11S : Buf := "@c>;tag=9\r\nX".toUTF8.data
+def aeHl11Hv : PHdrVals := { contacts := { vals := Array.replicate 2 {} } }
+def aeHl11R1 : Nat × Err × Hdr × Option PHdrVals := parseHdrLine aeHl11T 0 {} (some aeHl11Hv)
+def aeHl11R2 : Nat × Err × Hdr × Option PHdrVals :=
+  parseHdrLine (aeHl11T ++ aeHl11S) aeHl11R1.1 aeHl11R1.2.2.1 aeHl11R1.2.2.2
+
+-- test: call 1 is suspended inside the To value (state `hTo`); the resumed call is OK
+example : aeHl11R1.2.1 = .moreBytes ∧ aeHl11R1.2.2.1.state = .hTo ∧ aeHl11R2.2.1 = .ok ∧ aeHl11R2.1 = 25 := by
+  decide +kernel
+
+-- `C11.shift_hdrline_resume` with all hypotheses (new pair: `HlAll_new`; call 1 suspended; call 2)
+example : ∃ g gb, parseHdrLine (aeHl11Pre ++ (aeHl11T ++ aeHl11S)) (aeHl11Pre.size + aeHl11R1.1)
+      (shHdr aeHl11Pre.size aeHl11R1.2.2.1) (aeHl11R1.2.2.2.map (shHv aeHl11Pre.size)) =
+      (aeHl11Pre.size + aeHl11R2.1, .ok, g, gb) ∧
+    smRelHL aeHl11Pre.size .ok (g, gb) (aeHl11R2.2.2.1, aeHl11R2.2.2.2) :=
+  C11.shift_hdrline_resume aeHl11Pre aeHl11T aeHl11S 0 {} (some aeHl11Hv) (by decide +kernel)
+    (HlAll_new aeHl11T 0 (Nat.zero_le _) 2) (hlPending_of_not_isVal (by simp [HState.isVal]))
+    (ae_eta4 aeHl11R1 (by decide +kernel)) (ae_eta4 aeHl11R2 (by decide +kernel))
+
+/-! ### `C11.shift_pais` on a suspended identities object -/
+def aePa11Pre : Buf := "P-Asserted-Identity: ".toUTF8.data
+def aePa11T : Buf := "<sip:a@b>, <tel".toUTF8.data
+def aePa11S : Buf := ":+1>\r\nX".toUTF8.data
+def aePa11R1 : Nat × Err × PPAIs := parseAllPAIValues aePa11T 0 {}
+
+-- test: suspended inside the second identity (one stored)
+example : aePa11R1.2.1 = .moreBytes ∧ aePa11R1.2.2.n = 1 ∧
+    (parseAllPAIValues (aePa11T ++ aePa11S) aePa11R1.1 aePa11R1.2.2).2.1 = .ok := by decide +kernel
+
+-- `C11.shift_pais`: `PaShift` of the suspended object from `shift_pais`' companion `parseAllPAIValues_shiftEntry`
+example : slPaRes aePa11Pre.size
+    (parseAllPAIValues (aePa11Pre ++ (aePa11T ++ aePa11S)) (aePa11Pre.size + aePa11R1.1)
+      (shPa aePa11Pre.size aePa11R1.2.2))
+    (parseAllPAIValues (aePa11T ++ aePa11S) aePa11R1.1 aePa11R1.2.2) := by
+  have hE : PaShift aePa11T aePa11R1.1 aePa11R1.2.2 :=
+    parseAllPAIValues_shiftEntry aePa11T 0 {} (by decide +kernel) (PaShift_new _ _ (Nat.zero_le _))
+      (by decide +kernel)
+  exact C11.shift_pais aePa11Pre (aePa11T ++ aePa11S) aePa11R1.1 aePa11R1.2.2 (by decide +kernel) (hE.append aePa11S)
 
 /-! ## C14 -/
 
@@ -165,10 +835,140 @@ example : UcErrAt (parseURI "sip:h:70000;x".toUTF8.data {}) .port 11 :=
     (by decide +kernel) (by decide) (ucAll_of_check (by decide +kernel)) (by decide +kernel)
     (Or.inr (Or.inl (by decide +kernel)))
 
+/-! ## C15: `presence_raw` on two raw URIs that compare equal (parameters reordered, letter case changed) -/
+
+def aeU15A : Buf := "sip:a@b;user=phone;x=1".toUTF8.data
+def aeU15B : Buf := "SIP:a@B;X=1;USER=phone".toUTF8.data
+
+-- test: URIParseCmp says "equal", no error; both parameter lists fit (nothing dropped)
+example : (uriParseCmp aeU15A aeU15B 0).map (fun r => (r.1, r.2.1)) = some (true, UErr.none) ∧
+    (uriParamsParse (uclParamsText aeU15A) 0).2.more = false ∧
+    (uriParamsParse (uclParamsText aeU15B) 0).2.more = false := by decide +kernel
+
+-- `C15.presence_raw` with all hypotheses instantiated
+example : ∀ s ∈ [sUser, sTtl, sMethod, sMaddr],
+    (UclHasParam (uclParamsText aeU15A) s ↔ UclHasParam (uclParamsText aeU15B) s) := by
+  rcases h : uriParseCmp aeU15A aeU15B 0 with _ | ⟨v, e, i, u1, u2⟩
+  · have : (uriParseCmp aeU15A aeU15B 0).isSome = true := by decide +kernel
+    rw [h] at this; cases this
+  · have hv : (uriParseCmp aeU15A aeU15B 0).map (fun r => r.1) = some true := by decide +kernel
+    rw [h] at hv
+    simp only [Option.map_some, Option.some.injEq] at hv
+    subst hv
+    exact C15.presence_raw aeU15A aeU15B 0 (by decide +kernel) (by decide +kernel) (by decide +kernel)
+      (by decide +kernel) (by decide) h
+
+-- test: the statement is not vacuous on this input — `user` IS a parameter of both, `ttl` of neither
+example : UclHasParam (uclParamsText aeU15A) sUser ∧ UclHasParam (uclParamsText aeU15B) sUser ∧
+    ¬ UclHasParam (uclParamsText aeU15A) sTtl ∧ ¬ UclHasParam (uclParamsText aeU15B) sTtl := by decide +kernel
+
+/-! ## C18: `adjust_moves` with a URI whose scheme offset is not 0 (relocate twice) -/
+
+theorem ae_ulenStep_le (a start L : Nat) (f : PField) (ha : a ≤ L) (hL : start + L < 65536)
+    (hf : f.offs ≠ 0 → start ≤ f.offs ∧ f.offs + f.len ≤ start + L) : ulenStep a start f ≤ L := by
+  unfold ulenStep
+  split
+  · rename_i hc
+    simp only [Bool.and_eq_true, bne_iff_ne, ne_eq, decide_eq_true_eq] at hc
+    have := hf hc.1
+    have e : f.offs + f.len + 65536 - start = (f.offs + f.len - start) + 65536 := by omega
+    rw [e, Nat.add_mod_right, Nat.mod_eq_of_lt (by omega)]
+    omega
+  · exact ha
+
+/-- the length AdjustOffs computes is bounded by `L` as soon as the components lie inside `[start, start + L)` -/
+theorem ae_ulenOf_le (u : PsipURI) (L : Nat) (hL : u.scheme.offs + L < 65536) (hs : u.scheme.len ≤ L)
+    (hin : ∀ f ∈ C18.comps u, f.offs ≠ 0 → u.scheme.offs ≤ f.offs ∧ f.offs + f.len ≤ u.scheme.offs + L) :
+    C18.ulenOf u ≤ L := by
+  unfold C18.ulenOf
+  have key : ∀ (l : List PField) (a : Nat), a ≤ L →
+      (∀ f ∈ l, f.offs ≠ 0 → u.scheme.offs ≤ f.offs ∧ f.offs + f.len ≤ u.scheme.offs + L) →
+      l.foldl (fun a f => ulenStep a u.scheme.offs f) a ≤ L := by
+    intro l
+    induction l with
+    | nil => intro a ha _; exact ha
+    | cons x xs ih =>
+      intro a ha hl
+      simp only [List.foldl_cons]
+      exact ih _ (ae_ulenStep_le a _ L x ha hL (hl x List.mem_cons_self))
+        (fun f hf => hl f (List.mem_cons_of_mem _ hf))
+  exact key _ _ hs hin
+
+theorem ae_moved_inside (f : PField) (start offs L : Nat)
+    (h : f.offs ≠ 0 → start ≤ f.offs ∧ f.offs + f.len ≤ start + L) :
+    (C18.moved f start offs).offs ≠ 0 →
+      offs ≤ (C18.moved f start offs).offs ∧ (C18.moved f start offs).offs + (C18.moved f start offs).len ≤ offs + L := by
+  unfold C18.moved
+  by_cases hz : f.offs = 0
+  · simp [hz]
+  · have hne : (f.offs != 0) = true := by simpa using hz
+    have := h hz
+    simp only [hne, if_true]
+    intro _
+    constructor <;> omega
+
+/-- **C18: a relocated URI is again well formed** (what the header of C18 lists as not stated): after an accepted
+    AdjustOffs onto a span inside the addressing range, the result satisfies `WF` with the same length, so
+    `adjust_moves` / `adjust_refused` apply to a SECOND relocation -/
+theorem ae_adjust_wf (u : PsipURI) (np : PField) (L : Nat) (hwf : C18.WF u L) (hfit : L ≤ np.len)
+    (hsum : C18.sumLen u ≤ np.len) (hlim : np.offs + np.len < 65536) : C18.WF (u.adjustOffs np).2.1 L := by
+  obtain ⟨_, _, hsch, hu, hp, hh, hpo, hpa, hhd, _, _⟩ := C18.adjust_moves u np L hwf hfit hsum hlim
+  have hso : (u.adjustOffs np).2.1.scheme.offs = np.offs := by rw [hsch]
+  have hsl : (u.adjustOffs np).2.1.scheme.len = u.scheme.len := by rw [hsch]
+  have hin := hwf.inside
+  have hI : ∀ f ∈ C18.comps (u.adjustOffs np).2.1, f.offs ≠ 0 →
+      (u.adjustOffs np).2.1.scheme.offs ≤ f.offs ∧ f.offs + f.len ≤ (u.adjustOffs np).2.1.scheme.offs + L := by
+    intro f hf
+    rw [hso]
+    simp only [C18.comps, List.mem_cons, List.not_mem_nil, or_false] at hf
+    rcases hf with rfl | rfl | rfl | rfl | rfl | rfl
+    · rw [hu]; exact ae_moved_inside _ _ _ L (hin _ (by simp [C18.comps]))
+    · rw [hp]; exact ae_moved_inside _ _ _ L (hin _ (by simp [C18.comps]))
+    · rw [hh]; exact ae_moved_inside _ _ _ L (hin _ (by simp [C18.comps]))
+    · rw [hpo]; exact ae_moved_inside _ _ _ L (hin _ (by simp [C18.comps]))
+    · rw [hpa]; exact ae_moved_inside _ _ _ L (hin _ (by simp [C18.comps]))
+    · rw [hhd]; exact ae_moved_inside _ _ _ L (hin _ (by simp [C18.comps]))
+  have hL : (u.adjustOffs np).2.1.scheme.offs + L < 65536 := by rw [hso]; omega
+  have hS : (u.adjustOffs np).2.1.scheme.len ≤ L := by rw [hsl]; exact hwf.sch
+  exact ⟨hL, hS, hI, ae_ulenOf_le _ L hL hS hI⟩
+
+def aeU18B : Buf := "sip:u@h:5060;x=1".toUTF8.data
+/-- the parsed URI (scheme at offset 0) -/
+def aeU18U0 : PsipURI := (parseURI aeU18B {}).2.2.1
+/-- relocated once, onto `[100, 116)`: the scheme offset is now 100 -/
+def aeU18U1 : PsipURI := (aeU18U0.adjustOffs ⟨100, 16⟩).2.1
+
+-- test: accepted; after the first relocation the scheme starts at 100 and the host at 106
+example : (parseURI aeU18B {}).1 = .none ∧ aeU18B.size = 16 ∧ aeU18U1.scheme = ⟨100, 4⟩ ∧ aeU18U1.host = ⟨106, 1⟩ ∧
+    aeU18U1.params = ⟨113, 3⟩ := by decide +kernel
+
+theorem aeU18_wf1 : C18.WF aeU18U1 16 :=
+  ae_adjust_wf aeU18U0 ⟨100, 16⟩ 16 (C18.parsed_wf aeU18B (by decide +kernel) (by decide +kernel)) (Nat.le_refl _)
+    (by decide +kernel) (by decide)
+
+-- `C18.adjust_moves` for the SECOND relocation (start offset 100 ≠ 0, onto a longer span at 7)
+example :
+    let r := aeU18U1.adjustOffs ⟨7, 20⟩
+    r.1 = true ∧ r.2.2 = false ∧
+    r.2.1.scheme = { aeU18U1.scheme with offs := 7 } ∧
+    r.2.1.user = C18.moved aeU18U1.user aeU18U1.scheme.offs 7 ∧ r.2.1.pass = C18.moved aeU18U1.pass aeU18U1.scheme.offs 7 ∧
+    r.2.1.host = C18.moved aeU18U1.host aeU18U1.scheme.offs 7 ∧ r.2.1.port = C18.moved aeU18U1.port aeU18U1.scheme.offs 7 ∧
+    r.2.1.params = C18.moved aeU18U1.params aeU18U1.scheme.offs 7 ∧
+    r.2.1.headers = C18.moved aeU18U1.headers aeU18U1.scheme.offs 7 ∧
+    r.2.1.portNo = aeU18U1.portNo ∧ r.2.1.uriType = aeU18U1.uriType :=
+  C18.adjust_moves aeU18U1 ⟨7, 20⟩ 16 aeU18_wf1 (by decide) (by decide +kernel) (by decide)
+
+-- test: the numbers after the second relocation (host 106 - 100 + 7 = 13, port number kept)
+example : (aeU18U1.adjustOffs ⟨7, 20⟩).2.1.host = ⟨13, 1⟩ ∧ (aeU18U1.adjustOffs ⟨7, 20⟩).2.1.portNo = 5060 := by
+  decide +kernel
+
+/-! ## (B)(ii) C20: the address array has exactly 4 entries (the span theorems read `ip[0]!` … `ip[3]!`) -/
+
 theorem ae_ip4Loop_size (b : Buf) (start o : Nat) (st : IP4St) :
     (ip4Loop b start o st).2.2.2.size = st.ip.size := by
   fun_induction ip4Loop b start o st <;> simp_all
 
+/-- the address array returned by IP4Prefix has 4 entries, whatever the verdict -/
 theorem ae_ip4PrefixAt_size (b : Buf) (p : Nat) : (ip4PrefixAt b p).2.2.2.size = 4 := by
   unfold ip4PrefixAt; rw [ae_ip4Loop_size]; rfl
 
@@ -193,11 +993,20 @@ theorem ae_containsIP4Loop_size (b : Buf) (i : Nat) {r : Nat × Nat × Array Nat
   | case4 i hlt dOffs hidx offs hq hge => cases h
   | case5 i hge => cases h
 
+/-- **C20**: a positive ContainsIP4 returns an address array of exactly 4 entries -/
 theorem ae_containsIP4_size (b : Buf) {o n : Nat} {ip : Array Nat} (h : containsIP4 b = some (o, n, ip)) :
     ip.size = 4 := ae_containsIP4Loop_size b 0 h
 
+/-- **C20**: a positive IP4Prefix returns an address array of exactly 4 entries -/
 theorem ae_ip4Prefix_pos_size (b : Buf) {n : Nat} {e : Err} {ip : Array Nat} (h : ip4Prefix b = (true, n, e, ip)) :
     ip.size = 4 := by
   have := ae_ip4Prefix_size b; rw [h] at this; exact this
+-- tests: applied to concrete texts
+example : ∀ o n ip, containsIP4 "x256.1.1.1".toUTF8.data = some (o, n, ip) → ip.size = 4 :=
+  fun _ _ _ h => ae_containsIP4_size _ h
+example : (#[56, 1, 1, 1] : Array Nat).size = 4 :=
+  ae_containsIP4_size "x256.1.1.1".toUTF8.data (o := 2) (n := 8) (by decide +kernel)
+example : (#[10, 0, 255, 7] : Array Nat).size = 4 :=
+  ae_ip4Prefix_pos_size "10.0.255.7".toUTF8.data (n := 10) (e := .ok) (by decide +kernel)
 
 end Sipsp
